@@ -1,5 +1,6 @@
 import LyModel.Diff.Lemmas13Merge
 import LyModel.Diff.Lemmas13Inv
+import LyModel.Diff.LemmasExact
 /-!
 # C13 — diffs can be reversed and composed (`src/diff.c`: `lyd_diff_reverse_all`, `lyd_diff_merge_all`)
 
@@ -33,10 +34,44 @@ theorem reverse_apply_diff_partial {S : Schema} {fx : Fixes} (K : KeyOrder S) {A
       dataEqL true A' A = true :=
   reverse_apply_partial K hA hD
 
--- OPEN: `diff_exact : goodT S A → goodT S B → exactDiff S A (diff S true A B) = true` and `apply S A (diff S true A B) ≈ B`
--- belong to the characterisation of `diff` (C06, component diff); `exactDiff` is evaluated on every generated pair instead
--- (tools/checks/c13.py, op `exact`).  The statement with the literal second tree, `apply B₀ (reverse (diff A B₀)) ≈ A`,
--- additionally needs that `apply` respects `dataEqL true` in its data argument.
+/-! ### every computed diff is exact -/
+
+/-- `diff_exact`: for well-formed trees over the fragment (`wfForest`, the trees of C06 `apply_diff_partial`: leaves, containers,
+system-ordered keyed lists and leaf-lists in libyang's order, list keys where the schema puts them, no metadata, any depth),
+what `lyd_diff_siblings(A, B, LYD_DIFF_DEFAULTS)` computes is an exact diff for `A`: every diff node addresses a different
+instance and says the truth about it (`exactDiff`).  This discharges the hypothesis of `reverse_apply_partial` /
+`reverse_involutive` for every computed diff.  No hypothesis on the `sort` callbacks is needed. -/
+theorem diff_exact (S : Schema) (A B : List DNode) (hA : wfForest S A = true) (hB : wfForest S B = true) :
+    exactDiff S A (diff S true A B) = true :=
+  exactDiff_diff S A B hA hB
+
+/-- the trees of C06 are trees of the C13 fragment -/
+theorem wfForest_goodT (S : Schema) (A : List DNode) (hA : wfForest S A = true) : goodT S A = true :=
+  goodT_of_wfForest S A hA
+
+/-- `diff_exact` is false as written for `goodT` alone: `goodT` does not say where list-key leaves may occur, and a diff node
+for a key leaf is never exact (`exactE` demands `!S.isKey`; apply skips the leading keys of a diff level).  A = one key leaf
+at the top level (not a data tree libyang can build), B = empty: the diff is `delete` of that leaf. -/
+def keyS : Schema := { modName := "keytop", nodes := [ { depth := 0, kind := .leaf, name := "k", iskey := true } ] }
+
+theorem diff_exact_goodT_fails :
+    ¬ ∀ (S : Schema) (A B : List DNode), goodT S A = true → goodT S B = true → exactDiff S A (diff S true A B) = true := by
+  intro h
+  have h1 := h keyS [.term 0 {} [] (bs "x")] [] (by decide +kernel) (by decide +kernel)
+  have h2 : exactDiff keyS [.term 0 {} [] (bs "x")] (diff keyS true [.term 0 {} [] (bs "x")] []) = false := by decide +kernel
+  rw [h1] at h2
+  exact absurd h2 (by decide)
+
+/-- `reverse_apply` on the fragment, unconditionally: for well-formed `A`, `B` the reversed diff of `diff(A, B)`, applied to the
+tree the diff leads to, gives `A` back (structure, values, default flags of leaves / leaf-list instances). -/
+theorem reverse_apply_diff {S : Schema} {fx : Fixes} (K : KeyOrder S) {A B₀ : List DNode} (hA : wfForest S A = true)
+    (hB : wfForest S B₀ = true) :
+    ∃ B R A', apply S A (diff S true A B₀) fx = .ok B ∧ reverse S (diff S true A B₀) = .ok R ∧ apply S B R fx = .ok A' ∧
+      dataEqL true A' A = true :=
+  reverse_apply_partial K (goodT_of_wfForest S A hA) (diff_exact S A B₀ hA hB)
+
+-- OPEN: the statement with the literal second tree, `apply B₀ (reverse (diff A B₀)) ≈ A`: C06 `apply_diff_partial` gives
+-- `apply A (diff A B₀) ≈ B₀`; what is missing is that `apply` respects `dataEqL true` in its data argument.
 
 /-! ### a non-trivial instance: leaf replace with default-flag change, leaf delete, leaf-list create / delete, container delete -/
 
@@ -67,6 +102,14 @@ theorem reverse_involutive {S : Schema} {A D : List DNode} (hD : exactDiff S A D
   reverse_reverse hD hstd
 
 example : stdL (diff exS true exA exB) = true := by decide +kernel
+example : wfForest exS exA = true ∧ wfForest exS exB = true := by decide +kernel
+example : exactDiff exS exA (diff exS true exA exB) = true := diff_exact exS exA exB (by decide +kernel) (by decide +kernel)
+
+/-- … and unconditionally for every computed diff of well-formed trees -/
+theorem reverse_involutive_diff {S : Schema} {A B : List DNode} (hA : wfForest S A = true) (hB : wfForest S B = true)
+    (hstd : stdL (diff S true A B) = true) :
+    ∃ R, reverse S (diff S true A B) = .ok R ∧ reverse S R = .ok (revDupL (diff S true A B)) :=
+  reverse_reverse (diff_exact S A B hA hB) hstd
 
 /-- `reverse_apply` is false as written for user-ordered leaf-lists (finding F15(a)): the reversed moves keep their forward
 order.  A = `0 1 2`, B = `1 2 0`: the result is `0 2 1`. -/
